@@ -567,6 +567,9 @@ impl Model {
     /// let solutions: Vec<_> = m.minimize_and_iterate(x).collect();
     /// ```
     pub fn minimize_and_iterate(self, objective: impl View) -> impl Iterator<Item = Solution> {
+        if self.build_error().is_some() {
+            return Box::new(std::iter::empty()) as Box<dyn Iterator<Item = Solution>>;
+        }
         // First try specialized optimization before falling back to search
         match self.try_optimization_minimize(&objective) {
             Some(solution) => {
@@ -705,6 +708,9 @@ impl Model {
     /// let solutions: Vec<_> = m.maximize_and_iterate(x).collect();
     /// ```
     pub fn maximize_and_iterate(self, objective: impl View) -> impl Iterator<Item = Solution> {
+        if self.build_error().is_some() {
+            return Box::new(std::iter::empty()) as Box<dyn Iterator<Item = Solution>>;
+        }
         // First try specialized optimization before falling back to search
         match self.try_optimization_maximize(&objective) {
             Some(solution) => {
@@ -1710,7 +1716,27 @@ impl Model {
     #[doc(hidden)]
     /// Internal helper that validates the model and optimizes constraints before search.
     /// This ensures all solving methods benefit from validation and constraint optimization.
+    /// Errors recorded while the model was being built: the first constraint validation error,
+    /// or the exceeded memory budget. Every solving entry point has to report them.
+    fn build_error(&self) -> Option<SolverError> {
+        if let Some(e) = self.constraint_validation_errors.first() {
+            return Some(e.clone());
+        }
+        if self.memory_limit_exceeded {
+            return Some(SolverError::MemoryLimit {
+                usage_mb: Some(self.estimated_memory_mb() as usize),
+                limit_mb: self.config.max_memory_mb.map(|x| x as usize),
+            });
+        }
+        None
+    }
+
     fn prepare_for_search(mut self) -> Result<(crate::variables::Vars, crate::constraints::props::Propagators, Vec<crate::lpsolver::csp_integration::LinearConstraint>), crate::core::error::SolverError> {
+        // A model with recorded build errors must not be searched (the iterating entry
+        // points have no other way to see them and would enumerate a different model)
+        if let Some(e) = self.build_error() {
+            return Err(e);
+        }
         // STEP 0: Infer bounds for unbounded variables using constraint AST analysis
         // This happens BEFORE materialization so we can analyze all constraints
         // and extract better bounds than the simple variable-context inference at creation time
